@@ -482,7 +482,7 @@ def h_refs(ctx):
     refsz = {'u1': 1, 'u2': 2, 'u4': 4, 'u8': 8}.get(kind)
     # unit A: top(children) + target leaf T1 + referrer R + target T2 + null ; unit B: top(children) + leaf T3 + null
     ab = abbrev_table([(1, TAG_CU, True, []), (2, TAG_VAR, False, [(AT['const_value'], 0x0b)]), (3, TAG_VAR, False, [(AT['type'], form)])])
-    hA_probe, hszA = unit_header(E.version, E.fmt64, E.little, E.addr, 0, 'compile', body_len=0)
+    hA_probe, hszA = unit_header(E.version, E.fmt64, E.little, E.addr, 0, 'compile', body_len=0, tu=bool(cfg.get('tu')))
     v = [ctx.byte('val%d' % i) for i in range(3)]
     if kind == 'uleb':
         rsz = 2
@@ -507,12 +507,24 @@ def h_refs(ctx):
         rb = enc.uleb_enc(tgt - offA, 2)
     else:
         rb = enc.enc_int(tgt - offA, rsz, E.little)
-    hA, _ = unit_header(E.version, E.fmt64, E.little, E.addr, 0, 'compile', body_len=bodyA_len)
-    hB, _ = unit_header(4, False, E.little, 8, 0, 'compile', body_len=4)
-    sec = hA + [1, 2, v[0], 3] + rb + [2, v[1], 0] + hB + [1, 2, v[2], 0]
-    di, _ = mk_dwarfinfo(ctx, E.little, E.addr, debug_info=sec, debug_abbrev=ab)
-    cus = ctx.drain(di.iter_CUs()) if cfg.get('warm') else None
-    cuA = di.get_CU_at(offA)
+    if cfg.get('tu'):
+        # the referring entry lives in a DWARF 4 type unit (.debug_types); .debug_info holds other entries at the same numeric
+        # offsets - a unit-relative reference stays inside its unit and its section
+        hA, _ = unit_header(4, E.fmt64, E.little, E.addr, 0, tu=True, body_len=bodyA_len, signature=0x77, type_offset=hszA + 1)
+        types = hA + [1, 2, v[0], 3] + rb + [2, v[1], 0]
+        hI, _ = unit_header(4, False, E.little, 8, 0, 'compile', body_len=1 + 2 * 24 + 1)
+        info = hI + [1] + [2, 0xEE] * 24 + [0]
+        di, _ = mk_dwarfinfo(ctx, E.little, E.addr, debug_info=info, debug_abbrev=ab, debug_types=types)
+        if cfg.get('warm'):
+            ctx.drain(di.iter_CUs())
+        cuA = ctx.drain(di.iter_TUs())[0]
+    else:
+        hA, _ = unit_header(E.version, E.fmt64, E.little, E.addr, 0, 'compile', body_len=bodyA_len)
+        hB, _ = unit_header(4, False, E.little, 8, 0, 'compile', body_len=4)
+        sec = hA + [1, 2, v[0], 3] + rb + [2, v[1], 0] + hB + [1, 2, v[2], 0]
+        di, _ = mk_dwarfinfo(ctx, E.little, E.addr, debug_info=sec, debug_abbrev=ab)
+        cus = ctx.drain(di.iter_CUs()) if cfg.get('warm') else None
+        cuA = di.get_CU_at(offA)
     R = cuA.get_DIE_from_refaddr(r)
     T = R.get_DIE_from_attribute('DW_AT_type')
     ctx.outcome('ok')
@@ -520,6 +532,8 @@ def h_refs(ctx):
     ctx.check_eq('ref/%s/target-offset' % fname, T.offset, targets[k])
     ctx.check_eq('ref/%s/target-value' % fname, T.attributes['DW_AT_const_value'].value, v[k])
     ctx.check_eq('ref/%s/target-unit' % fname, T.cu.cu_offset, offB if k == 2 else offA)
+    if cfg.get('tu'):
+        ctx.check('ref/%s/target-stays-in-the-type-unit' % fname, T.cu is cuA)
 
 
 def h_ref_sig8(ctx):
@@ -650,7 +664,9 @@ HARNESSES = [
     H('h4_5_tree', h_tree, _tree_instances, expect=('ok',),
       desc='every tree shape up to N entries under the unit entry, with and without DW_AT_sibling in ref4 / ref_udata / ref_addr form, after 0/1 preceding units: '
            'iter_DIEs sequence (offset, size, code, tag, child flag, nulls), exact tiling up to the declared unit length, iter_children / get_parent equal the nesting, random access before iteration'),
-    H('h4_6_refs', h_refs, lambda tier: [dict(env=e, form=f, warm=w) for e in ENVS_Q for f in (0x11, 0x12, 0x13, 0x14, 0x15, 0x10) for w in (False, True)], expect=('ok',),
+    H('h4_6_refs', h_refs, lambda tier: [dict(env=e, form=f, warm=w) for e in ENVS_Q for f in (0x11, 0x12, 0x13, 0x14, 0x15, 0x10) for w in (False, True)] +
+                                        [dict(env=e, form=f, warm=w, tu=True) for e in (dict(version=4, fmt64=False, little=True, addr=8), dict(version=4, fmt64=True, little=False, addr=4))
+                                         for f in (0x11, 0x12, 0x13, 0x14, 0x15) for w in (False, True)], expect=('ok',),
       desc='get_DIE_from_attribute for ref1/2/4/8/udata (unit relative) and ref_addr (section relative, across two units, DWARF 2 width) with a symbolic target'),
     H('h4_6_ref_sig8', h_ref_sig8, lambda tier: [dict(little=l, sigs=s) for l in (True, False) for s in ([1, 2], [0xfedcba9876543210, 0x8000000000000000], [0, 0xffffffffffffffff])], expect=('ok',),
       desc='DW_FORM_ref_sig8 through two v4 type units with signatures at the 64-bit boundaries and a symbolic choice of target'),
